@@ -357,6 +357,23 @@ def rule_cursors(ctx, db):
             if 2 in locs and any(call_matches(ct, r"Slice::<T>::begin$") for _, ct in cr) and any(st["a"]["l"] in locs for _, st in _adds(f)):
                 ok = True
         ctx.ob("R5", "buffer-advance-reslices-at-begin-plus-amount", ok, "advance(amount) re-slices the buffer at begin() + amount", f)
+    # ---- Vec<u8> positional writers: a position beyond the end zero-fills the gap before anything is appended
+    vw = [f for f in db.fns.values() if f.kind == "coroutine" and re.match(r"<alloc::vec::Vec<u8> as compio_io::write::AsyncWriteAt>::(write_at|write_vectored_at)::\{closure#0\}$", f.name)]
+    ctx.floor("R5", "Vec<u8> positional writers", len(vw), 2)
+    for f in vw:
+        name = db.root_fn(f).name
+        sg = arith.Sigs(f)
+        rz = calls(f, r"Vec::<T, A>::resize$")
+        okz = False
+        for bb, t in rz:
+            # resize(pos, 0) on the edge where pos > len
+            a1 = t["args"][1]
+            lens = [("call", "len", (sg.operand(t["args"][0]),))]
+            if arith.established_le(f, sg, lens[0], sg.operand(a1), bb) and str(t["args"][2].get("v")) == "0":
+                okz = True
+        ctx.ob("R5", "vec-writer-zero-fills-gap:" + name, okz,
+               "when the position lies beyond the current length the vector is first resized to the position with zeros "
+               "(so the bytes land at `pos`, like a sparse file), as the scalar and the vectored writer both must", f)
     # ---- &[u8]::read
     sr = [f for f in db.fns.values() if f.kind == "coroutine" and f.name.startswith("<&[u8] as compio_io::read::AsyncRead>::read::")]
     if not sr:
